@@ -69,7 +69,7 @@ func (fv *FuncVC) sliceOp(x *ssa.Slice) {
 		if root := fv.rootCell(x.X); root != nil && !fv.escapes[root] {
 			// slice of a local array (varargs, slice literals): fresh backing address,
 			// element values remembered for append.
-			p := fv.freshConst("@"+x.Name(), SInt)
+			p := fv.freshConst("adr."+x.Name(), SInt)
 			fv.assume(lt(intLit(0), p))
 			r := mkSlice(add(p, mul(intLit(esz), lo)), sub(hi, lo), sub(capT, lo))
 			fv.define(x, r)
@@ -94,7 +94,7 @@ func (fv *FuncVC) makeSlice(x *ssa.MakeSlice) {
 	et := x.Type().Underlying().(*types.Slice).Elem()
 	esz := fv.TE.Sizeof(et)
 	fv.oblige("makeslice", "", and(le(intLit(0), l), le(l, c)), x.Pos(), "make: 0 <= len <= cap")
-	p := fv.freshConst("@"+x.Name(), SInt)
+	p := fv.freshConst("adr."+x.Name(), SInt)
 	fv.assume(lt(intLit(0), p))
 	brk := fv.ghostVal(fv.cur, "$brk")
 	fv.assumeHere(le(brk, p))
@@ -711,7 +711,7 @@ func (fv *FuncVC) appendOp(x *ssa.Call) {
 	}
 	newLen := add(slLen(dst), n)
 	inPlace := le(newLen, slCap(dst))
-	np := fv.freshConst("@"+x.Name()+".p", SInt)
+	np := fv.freshConst("adr."+x.Name()+".p", SInt)
 	nc := fv.freshConst(x.Name()+".cap", SInt)
 	brk := fv.ghostVal(fv.cur, "$brk")
 	nb := fv.freshConst("g.brk", SInt)
